@@ -68,6 +68,11 @@ class BaseBoom(BaseException):
     """Leaving a block through something like KeyboardInterrupt / GeneratorExit: not an Exception subclass."""
 
 
+# how a block is left by exception: the value of the second field of a "leave" operation -> exception class
+EXC_TYPES = {True: Boom, 2: BaseBoom, "ValueError": ValueError, "KeyError": KeyError, "StopIteration": StopIteration,
+             "GeneratorExit": GeneratorExit, "RuntimeError": RuntimeError}
+
+
 class Runner:
     """Drives the implementation and the stack model side by side."""
 
@@ -127,10 +132,10 @@ class Runner:
             obj, saved = self.stack.pop()
             try:
                 if op[1]:
-                    exc_type = BaseBoom if op[1] == 2 else Boom
+                    exc_type = EXC_TYPES.get(op[1], Boom)
                     try:
                         raise exc_type("leave by exception")
-                    except (Boom, BaseBoom) as e:
+                    except tuple(EXC_TYPES.values()) as e:
                         obj.__exit__(exc_type, e, e.__traceback__)
                     self.flags.add("exceptional-leave")
                 else:
@@ -214,6 +219,7 @@ def options(model):
         out.append(("leave", False))
         out.append(("leave", True))
         out.append(("leave", 2))
+        out.append(("leave", "ValueError"))  # what a refused pattern raises, propagating out of the block
     out.append(("set", PAIRS["C"], True))
     out.append(("set", PAIRS["INV2"], False))
     out.append(("render",))
@@ -273,7 +279,8 @@ def enumerate_histories(maxlen, shard, nshards, rec):
 
 SPECS = ("", "", ">12", "<8", "^20", "s", ".40")
 CONVS = (None, None, "s", "r", "a")
-OTHER_FIELDS = ("", "0", "x", "mothers", "Mother", "mother.real", "mother[0]", "daughter", "daughters.x", "1")
+OTHER_FIELDS = ("", "0", "x", "mothers", "Mother", "mother.real", "mother[0]", "daughter", "daughters.x", "1",
+                " mother ", "mother ", " daughters", "daughters\t", "MOTHER")
 
 
 @st.composite
@@ -298,7 +305,7 @@ def pattern(draw, sub=False):
     if kind == 9 and draw(st.booleans()):
         # malformed replacement fields: rejected like any other invalid pattern
         return draw(st.sampled_from(("{mother -> {daughters}", "{mother} -> daughters}", "{mother} -> {daughters", "{mother} } {daughters}",
-                                     "{mother:{} {daughters}"))), False
+                                     "{mother:{} {daughters}", "{ mother } -> {daughters}", "{mother} -> {daughters }", "{mother } {daughters}"))), False
     order = draw(st.permutations(["mother", "daughters"]))
     lits = [draw(st.sampled_from(("", " ", " -> ", " => ", " (", ")", "[", "]", "{{", "}}", " {{x}} ", "|", " to "))) for _ in range(4)]
     text = lits[0]
@@ -378,7 +385,7 @@ def make_machine(rec):
             self.do(("enter", k))
 
         @precondition(lambda self: bool(self.r.stack))
-        @rule(exc=st.sampled_from((False, True, 2)))
+        @rule(exc=st.sampled_from((False, False, True, 2, "ValueError", "KeyError", "StopIteration", "GeneratorExit", "RuntimeError")))
         def leave(self, exc):
             self.do(("leave", exc))
 
